@@ -107,6 +107,9 @@ def stress_instances(thorough):
     """hand-picked larger instances where slack sizing matters (every set of a 3-fold covered element is needed)"""
     out = [{"cls": "SetCover", "inst": {"U": [0, 1, 2, 3], "V": [[0, 1], [0, 2], [0, 3]], "weights": None, "log_trick": True},
             "A": 2, "B": 1, "strict": True, "default": True, "big": True}]
+    # BILP instances in which a linear coefficient cancels exactly under the DEFAULT weights (A = 2, B = 1)
+    out.append({"cls": "BILP", "inst": {"c": [2, 1], "S": [[1, 0]], "b": [1]}, "A": 4, "B": 1, "strict": True, "default": False})
+    out.append({"cls": "BILP", "inst": {"c": [1, 2, 0], "S": [[0, 1, 0], [1, 0, 1]], "b": [1, 1]}, "A": 4, "B": 1, "strict": True, "default": False})
     if thorough:
         out.append({"cls": "SetCover", "inst": {"U": [0, 1, 2, 3], "V": [[0, 1], [0, 2], [0, 3]], "weights": None, "log_trick": False},
                     "A": 3, "B": 2, "strict": True, "default": False, "big": True})
@@ -294,6 +297,10 @@ def run_case(case, cid, maxvars):
                     # the inherited solver forwards its arguments to to_qubo: weights above the threshold
                     bf = pure.twice(lambda: prob.solve_bruteforce(A=case["A"], B=case["B"]))
                     rec["has_bf"], rec["bf"] = True, decode_to_on(bf, False)
+                if cls in ("VertexCover", "BILP", "GraphPartitioning", "NumberPartitioning"):
+                    # the inherited solver with its default weights: must return SOME decoded solution (optimality is only
+                    # promised above the thresholds) - also when a coefficient cancels while the QUBO is built
+                    prob.solve_bruteforce()
             except ValueError as e:
                 if "not solvable" not in str(e):
                     raise
